@@ -221,6 +221,8 @@ func ScanFooter(options *StoreOptions, fref *FileRef, fileName string,
 				return nil, err
 			}
 
+			f.initChildRefs()
+
 			// json.Unmarshal would have just loaded the map.
 			// We now need to load each segment into the map.
 			// Also recursively load child footer segment stacks.
@@ -423,6 +425,11 @@ func (f *Footer) DecRef() {
 		f.SegmentLocs.DecRef()
 		f.SegmentLocs = nil
 		f.ss = nil
+
+		// A footer owns one ref-count on each of its child footers.
+		for _, childFooter := range f.ChildFooters {
+			childFooter.DecRef()
+		}
 	}
 	f.m.Unlock()
 }
@@ -454,6 +461,15 @@ func (f *Footer) segmentLocs() (SegmentLocs, *segmentStack) {
 	f.m.Unlock()
 
 	return slocs, ss
+}
+
+// initChildRefs gives every child footer (recursively) of a footer that
+// was just decoded the ref-count that its parent footer owns.
+func (f *Footer) initChildRefs() {
+	for _, childFooter := range f.ChildFooters {
+		childFooter.refs = 1
+		childFooter.initChildRefs()
+	}
 }
 
 // childrenChanged returns true when the footer has a child collection
